@@ -303,7 +303,11 @@ func (m Message) GetMetaSeqData(bt *[]byte) bool {
 	}
 
 	if bt != nil {
-		data := m.metaDataWithoutVarlength()
+		// the length is a variable length quantity, i.e. more than one byte for 128 bytes of data and more
+		data, err := utils.ReadVarLengthData(bytes.NewReader(m[2:]))
+		if err != nil {
+			return false
+		}
 		*bt = data
 	}
 	return true
